@@ -227,6 +227,14 @@ Script random_script(Rng &r, const GenFeatures &f, int n, int id_base) {
         std::string host = "h" + rand_token(r, 1, 6) + ".example";
         for (auto &c : host) c = (char) tolower((unsigned char) c);
         std::string path = "/id" + strfmt("%d", id) + "/" + rand_token(r, 0, 8);
+        if (f.wild_path && r.chance(1, 2)) {
+            // pieces the path decoder treats specially; no '?', '#', space or control byte, so the target stays one request-line token
+            static const char *W[] = {"%2f", "%2F", "%5c", "\\", "//", "/./", "/../", "/..", "/.", "%2e", "%2e%2e/", "%u002f", "%u2215", "%uff0f", "%uFF21", "%u0041", "%u00e9",
+                                      "%c0%af", "%e0%80%af", "%f0%80%80%af", "\xc0\xaf", "\xe0\x80\xaf", "\xc3\xa9", "\xef\xbc\x8f", "\xf0\x9f\x98\x80", "\xff", "\x80", "\xc3",
+                                      "%00", "%", "%4", "%zz", "%u", "%u1", "%u12", "%u123", "%u12g4", "%uzzzz", "%25", "%252f", "+", ";p=1", ":", "@", "A", "Z", "%41", "%7e", "~", "%80", "%ff", "%0a", "%7f", "%01"};
+            int k = (int) r.range(1, 7);
+            for (int j = 0; j < k; j++) { path += W[r.below(sizeof W / sizeof *W)]; if (r.chance(1, 3)) path += rand_token(r, 1, 4); }
+        }
         std::string query;
         std::vector<std::pair<Bytes, Bytes>> qparams, bparams;
         if (f.query && r.chance(1, 2)) {
@@ -293,7 +301,8 @@ Script random_script(Rng &r, const GenFeatures &f, int n, int id_base) {
         if (f.interim100 && may_body && q.framing != FR_NONE && r.chance(1, 8)) {
             HeaderSpec e; e.name = "Expect"; e.value = "100-continue"; q.headers.push_back(e);
             if (p.status < 400 || p.status > 499)   // a 4xx answer to Expect is handled specially (request body not expected), see gen.h notes
-                p.interim = "HTTP/1.1 100 Continue\r\n\r\n";
+                // (an interim response may carry fields of its own; they belong to it, not to the final response)
+                p.interim = r.coin() ? Bytes("HTTP/1.1 100 Continue\r\n\r\n") : Bytes("HTTP/1.1 100 Continue\r\nX-Interim: ") + rand_token(r, 1, 6) + "\r\n" + (r.coin() ? "Server: sim\r\n" : "") + "\r\n";
             else { q.headers.pop_back(); }
         }
         // derived ground truth, computed from what the actor chose (never from bytes)
@@ -482,6 +491,8 @@ void random_cfg(Rng &rng, Cfg &cfg, bool wellformed) {
         if (rng.chance(1, 5)) cfg.set("extract_files", 1);
         if (rng.chance(1, 6)) cfg.set("decomp_layers", (long) rng.below(4));
         if (rng.chance(1, 4)) cfg.set("disposal", (long) rng.range(2, 3));
+        if (rng.chance(1, 3)) { cfg.set("dec_swarm", (long) rng.below(1000000) + 1); cfg.set("dec_swarm_urlenc", rng.coin()); }
+        if (rng.chance(1, 6)) cfg.set("cfg_copy", 1);
     }
 }
 
